@@ -78,6 +78,8 @@ fn main() {
         let ans = match dom {
             "REQ" => dom_parse::req(rest),
             "RESP" => dom_parse::resp(rest),
+            "REQG" => dom_parse::guarded(rest, false),
+            "RESPG" => dom_parse::guarded(rest, true),
             "HDR" => dom_hdr::hdr(rest),
             "DATE" => dom_date::date(rest),
             "DATECACHE" => dom_date::date_cache(rest),
